@@ -114,6 +114,8 @@ def run(chk, ctx) -> None:
     _reserved(chk, ctx)
     _engine_cards(chk, ctx)
     _destinations(chk, ctx)
+    from .cover import initial_deck
+    initial_deck(chk, ctx)
 
 
 def _payload(e):
